@@ -13,7 +13,7 @@ sys.path.insert(0, V + "/fv")
 import selftest  # noqa: E402
 kind = sys.argv[1]
 names = sys.argv[2:] or sorted(os.path.basename(os.path.dirname(p)) for p in glob.glob("%s/%s/*/patch.diff" % (V, kind)))
-ROOT = "/var/tmp/fv-ps.%d" % os.getpid()
+ROOT = os.environ.get("FV_PS_ROOT") or "/var/tmp/fv-ps.%d" % os.getpid()      # a given root is kept (warm target dirs)
 NW = 6
 workers = Queue()
 for w in range(NW):
@@ -46,7 +46,8 @@ try:
     with ThreadPoolExecutor(max_workers=NW) as ex:
         results = list(ex.map(run_one, names))
 finally:
-    shutil.rmtree(ROOT, ignore_errors=True)
+    if not os.environ.get("FV_PS_ROOT"):
+        shutil.rmtree(ROOT, ignore_errors=True)
 
 if kind == "refactors":
     rp = V + "/refactors/RESULTS.json"
@@ -78,15 +79,19 @@ else:
             continue
         (prop, (rc, txt)), = res.items()
         rules = sorted(set(re.findall(r"^  rule (\S+)", txt, re.M)))
+        first = re.findall(r"^  rule .*$", txt, re.M)[:1]
         if rc == 1 and rules:
-            meta["detected_by"], meta["checker_outcome"] = rules, "detected"
+            meta["detected_by"] = {"check": prop, "rules": rules, "message": first[0].strip() if first else ""}
+            meta.pop("checker_outcome", None)
             det += 1
             print("%-9s DETECTED %s" % (name, ",".join(rules)))
         elif rc == 2:
-            meta["detected_by"], meta["checker_outcome"] = [], "exit 2 (cannot vouch)"
-            print("%-9s EXIT2    %s" % (name, (re.findall(r"^ANCHOR-LOST.*$", txt, re.M) or [""])[0][:140]))
+            meta["detected_by"] = None
+            meta["checker_outcome"] = "exit 2 (cannot vouch): " + (re.findall(r"^(ANCHOR-LOST.*|CHECKER-ERROR.*)$", txt, re.M) or [""])[0][:200]
+            print("%-9s EXIT2    %s" % (name, meta["checker_outcome"][:140]))
         else:
-            meta["detected_by"], meta["checker_outcome"] = [], "missed"
+            meta["detected_by"] = None
+            meta.pop("checker_outcome", None)
             print("%-9s missed" % name)
         json.dump(meta, open(mp, "w"), indent=1)
     print(det, "of", len(results), "detected")
